@@ -71,6 +71,13 @@ def _impl(case):
     from pydl.pydlutils.spheregroup import spherematch, chunks
     ra1, dec1 = np.array(case['ra1'], dtype='d'), np.array(case['dec1'], dtype='d')
     ra2, dec2 = np.array(case['ra2'], dtype='d'), np.array(case['dec2'], dtype='d')
+    # whole-degree positions held in an integer array are the same positions (each list keeps its OWN dtype: seeded change C04-23)
+    for key in ('dt1', 'dt2'):
+        if case.get(key):
+            if key == 'dt1' and (ra1 == np.rint(ra1)).all() and (dec1 == np.rint(dec1)).all():
+                ra1, dec1 = ra1.astype(case[key]), dec1.astype(case[key])
+            if key == 'dt2' and (ra2 == np.rint(ra2)).all() and (dec2 == np.rint(dec2)).all():
+                ra2, dec2 = ra2.astype(case[key]), dec2.astype(case[key])
     ml, cs, mm = case['ml'], case['cs'], case['mm']
     out = {}
     try:
@@ -437,6 +444,22 @@ def _gen_ties(r):
     return c
 
 
+def _gen_intlist(r):
+    """one list on whole degrees in an integer array, the other one float64 positions scattered around lattice points"""
+    a0, d0 = int(r.integers(5, 330)), int(r.integers(-60, 50))
+    n = int(r.integers(2, 6))
+    lat = [(a0 + i, d0 + j) for i in range(n) for j in range(n)]
+    ml = float(r.choice([0.2, 0.45, 0.75, 1.2]))
+    m = int(r.integers(3, 25))
+    pick = [lat[int(r.integers(len(lat)))] for _ in range(m)]
+    fr = [(p[0] + float(r.uniform(-1, 1)) * ml * 1.5, p[1] + float(r.uniform(-1, 1)) * ml * 1.5) for p in pick]
+    ints_first = bool(r.random() < 0.6)
+    l1, l2 = (lat, fr) if ints_first else (fr, lat)
+    c = _mk('intlist', [p[0] for p in l1], [p[1] for p in l1], [p[0] for p in l2], [p[1] for p in l2], ml, _pick_cs(r, ml), int(r.choice([0, 0, 1, 2])))
+    c['dt1' if ints_first else 'dt2'] = str(r.choice(['i8', 'i4']))      # (int16 would make numpy compute the angles in float32)
+    return c
+
+
 def _permuted(r, c):
     p1, p2 = r.permutation(len(c['ra1'])), r.permutation(len(c['ra2']))
     d = dict(c, kind=c['kind'] + '+perm')
@@ -451,7 +474,7 @@ def _cases(ctx):
     r = np.random.default_rng(ctx.rng.getrandbits(64))
     n = ctx.n(1500, 40000)
     mix = (['cluster'] * 5 + ['seam'] * 4 + ['polar80'] * 3 + ['polar87'] * 3 + ['allsky'] * 2 + ['lattice'] * 4 +
-           ['d5'] * 3 + ['ties'] * 2 + ['polar-smallchunk'] * 3 + ['topedge'] * 2 + ['threshold'] * 2)
+           ['d5'] * 3 + ['ties'] * 2 + ['polar-smallchunk'] * 3 + ['topedge'] * 2 + ['threshold'] * 2 + ['intlist'] * 2)
     out = []
     for _ in range(n):
         k = mix[int(r.integers(len(mix)))]
@@ -463,6 +486,8 @@ def _cases(ctx):
             c = _gen_topedge(r)
         elif k == 'ties':
             c = _gen_ties(r)
+        elif k == 'intlist':
+            c = _gen_intlist(r)
         elif k == 'threshold':
             c = _gen_threshold(r)
         elif k == 'polar-smallchunk':
